@@ -2,6 +2,7 @@
 base strings, known-finding signatures (predicates over a failing case)."""
 
 KIND_NAMES = {
+    102: 'C01/piecedl: piecedownloader vs PieceDl.v',
     1301: 'C13/infodl: infodownloader vs InfoDl.v',
     1302: 'C13/magnet: magnet.New(String()) vs Magnet.v (render then parse)',
     1701: 'C17/ram: resourcemanager vs Ram.v (outcomes and notifications validated; allocation compared exactly)',
@@ -44,6 +45,11 @@ TRUSTED_COMMON = [
 ]
 
 PROPS = {
+    'C01': {
+        'kinds': {102: {'quick': 800, 'thorough': 20000}},
+        'trusted': ['SHA-1: a buffer whose digest equals the recorded hash is the recorded content (collision resistance)'],
+        'assumptions': [],
+    },
     'C13': {
         'kinds': {1301: {'quick': 2500, 'thorough': 50000}, 1302: {'quick': 3000, 'thorough': 60000}, 303: {'quick': 160, 'thorough': 2400}},
         'trusted': ['net/url (Parse, ParseQuery, QueryEscape) beyond sampled agreement with the byte-level model', 'SHA-1 (adoption compares the digest of the assembled bytes with the info-hash)'],
